@@ -55,6 +55,13 @@ def forms(n, S, rng):
     mt = " or ".join("(" + " and ".join((f"a[{i}]" if (s >> i) & 1 else f"not a[{i}]") for i in range(n)) + ")" for s in S)
     out.append(("tuple_arg", f"def f(a: {tt}) -> bool:\n    return {mt}\n", None, ["bool"] * n))
     N = 1 << n
+    # exclusive-or of two overlapping predicates (the compiler reserves the result qubit before the scratch qubits here)
+    non = [x for x in range(N) if x not in S]
+    T = sorted(rng.sample(non, min(len(non), rng.randint(1, 3))))
+    g1 = " or ".join(minterm(x) for x in sorted(S + T))
+    g2 = " or ".join(minterm(x) for x in T)
+    out.append(("xor_split", f"def f(a: Qint[{n}]) -> bool:\n    return ({g1}) != ({g2})\n", None, f"Qint{n}"))
+    out.append(("not_xor_split", f"def f(a: Qint[{n}]) -> bool:\n    return not (({g1}) ^ (not ({g2})))\n", None, f"Qint{n}"))
     if n <= 3:
         tab = ", ".join("1" if x in S else "0" for x in range(N))
         out.append(("lookup", f"def f(a: Qint[{n}]) -> bool:\n    l = [{tab}]\n    return l[a] == 1\n", None, f"Qint{n}"))
@@ -109,6 +116,14 @@ def check(case):
         alg0 = Grover(qf0, n_matching=M)
         ideal = dist_of(alg0)
         judge("ideal oracle", ideal)
+        # the same ideal black box with an idle scratch qubit allocated AFTER the result qubit
+        qf1, _ = A.compile_qf(f"def f(a: Qint[{n}]) -> bool:\n    return a == 0\n")
+        A.ideal_oracle(qf1, truth)
+        qf1.circuit().add_qubit("idle_scratch")
+        d1 = dist_of(Grover(qf1, n_matching=M))
+        cnt["forms_compared"] = cnt.get("forms_compared", 0) + 1
+        if np.max(np.abs(d1 - ideal)) > 1e-9:
+            fail("depends_on_qubit_layout", f"ideal oracle with one idle qubit after the result qubit: distribution differs by {np.max(np.abs(d1 - ideal)):.3g}")
         if alg0.n_iterations != exp_iter:
             fail("iterations", f"n_iterations = {alg0.n_iterations}, expected ceil(pi/4 sqrt(N/M)) = {exp_iter}")
         cnt["iterations_checked"] = 1
